@@ -1227,11 +1227,31 @@ fn searches(e: &mut Exec, rng: &mut Rng, kv: &Args, positions: &[(String, Pos)])
     for (name, p) in positions {
         e.line(&format!("# search position {}", name));
         e.exec(&format!("pos {}", p.line()));
+        let sop = if kv.num("selfmm", 0) == 1 { "searchx" } else { "search" };
         for d in depths.iter() {
             let n = pools[rng.below(pools.len())];
             e.exec(&format!("sctx {}", d));
-            e.exec(&format!("search {}", n));
+            e.exec(&format!("{} {}", sop, n));
             e.exec("snap");
+        }
+        if kv.num("clocks", 0) == 1 {
+            // one context reused for the same placement at different half-move clocks (a game that
+            // shuffles back into a position it has searched before, closer to the move-count draw)
+            let d = *depths.iter().max().unwrap();
+            e.exec(&format!("sctx {}", d));
+            let mut q = p.clone();
+            let mut hs: Vec<u8> = vec![rng.below(60) as u8, (100 - d as usize + rng.below(d as usize + 1)).min(99) as u8, 99, (96 + rng.below(4)) as u8, rng.below(90) as u8];
+            if rng.chance(1, 2) {
+                hs.reverse();
+            }
+            for h in hs {
+                q.half = h;
+                e.exec(&format!("pos {}", q.line()));
+                let n = pools[rng.below(pools.len())];
+                e.exec(&format!("search {}", n));
+                e.tally("searches-same-context-other-clock");
+            }
+            e.exec(&format!("pos {}", p.line()));
         }
         if game_plies > 0 {
             // one context reused across the successive searches of a game
@@ -1239,7 +1259,7 @@ fn searches(e: &mut Exec, rng: &mut Rng, kv: &Args, positions: &[(String, Pos)])
             e.exec(&format!("sctx {}", d));
             for _ in 0..game_plies {
                 let n = pools[rng.below(pools.len())];
-                let r = e.exec(&format!("search {}", n));
+                let r = e.exec(&format!("{} {}", sop, n));
                 match parse_search_move(&r) {
                     Some(m) => e.play(&m),
                     None => break,
@@ -1382,6 +1402,66 @@ fn revisits(e: &mut Exec, rng: &mut Rng, kv: &Args, positions: &[(String, Pos)])
 }
 
 /// positions met along random walks (reachable, varied)
+/// C02/C05: the same placement met again with fewer castling rights.  Kings and home rooks step
+/// out and back, repeatedly (a king that has returned leaves again, a right already gone is
+/// "lost" once more), with the node operations (long-lived generator, key, snapshots) at every ply.
+fn rights_revisits(e: &mut Exec, rng: &mut Rng, kv: &Args, positions: &[(String, Pos)]) {
+    let node_ops = e.node_ops.clone();
+    let rounds = kv.num("rounds", 3) as usize;
+    let setups = kv.num("setups", 0) as usize;
+    let mut all: Vec<(String, Pos)> = positions.iter().filter(|(_, p)| p.rights != 0).cloned().collect();
+    let mut tries = 0;
+    while all.len() < positions.iter().filter(|(_, p)| p.rights != 0).count() + setups && tries < 100 * (setups + 1) {
+        tries += 1;
+        let p = themed_setup(rng);
+        if p.rights != 0 {
+            all.push((format!("themed-{}", tries), p));
+        }
+    }
+    for (name, p) in all.iter() {
+        e.line(&format!("# rights revisit {}", name));
+        e.exec(&format!("pos {}", p.line()));
+        for o in node_ops.iter() {
+            e.exec(o);
+        }
+        'rounds: for _ in 0..rounds {
+            let mut outs: Vec<ChessMove> = vec![];
+            for ply in 0..4 {
+                let ms = e.legal();
+                let pick = if ply < 2 {
+                    let quiet = |want_home: bool| -> Vec<ChessMove> {
+                        ms.iter().filter(|m| matches!(m, ChessMove::Standard(_)) && m.captures().is_none()
+                            && e.ctx.board.get(m.from_square()).map(|(pc, _)| {
+                                let home = pc == Piece::King || (pc == Piece::Rook && [0usize, 7, 56, 63].contains(&idx(m.from_square())));
+                                pc != Piece::Pawn && home == want_home
+                            }).unwrap_or(false)).cloned().collect()
+                    };
+                    let (home, other) = (quiet(true), quiet(false));
+                    if !home.is_empty() && (other.is_empty() || rng.chance(4, 5)) { Some(home[rng.below(home.len())].clone()) }
+                    else if !other.is_empty() { Some(other[rng.below(other.len())].clone()) }
+                    else { None }
+                } else {
+                    let out = &outs[ply - 2];
+                    ms.iter().find(|m| matches!(m, ChessMove::Standard(_)) && m.from_square() == out.to_square() && m.to_square() == out.from_square() && m.captures().is_none()).cloned()
+                };
+                match pick {
+                    Some(m) => {
+                        if ply < 2 {
+                            outs.push(m.clone());
+                        }
+                        e.play(&m);
+                        for o in node_ops.iter() {
+                            e.exec(o);
+                        }
+                    }
+                    None => break 'rounds,
+                }
+            }
+            e.tally("rights-revisit-rounds");
+        }
+    }
+}
+
 fn walk_positions(rng: &mut Rng, corpus: &[(String, Pos)], count: usize, max_pieces: usize) -> Vec<(String, Pos)> {
     let mut out = vec![];
     let mut mg = chess::move_generator::MoveGenerator::with_cache_capacity(64);
@@ -1431,7 +1511,20 @@ fn perfts(e: &mut Exec, rng: &mut Rng, kv: &Args, positions: &[(String, Pos)]) {
 
 fn mutate_label(rng: &mut Rng, s: &str) -> String {
     let mut c: Vec<char> = s.chars().collect();
-    match rng.below(7) {
+    match rng.below(9) {
+        7 => {
+            // letter case: a piece letter written small (bxc3 for Bxc3), a file written large, o-o
+            let flips: Vec<usize> = (0..c.len()).filter(|&i| c[i].is_ascii_alphabetic() && c[i] != 'x').collect();
+            if !flips.is_empty() {
+                let i = if rng.chance(2, 3) { flips[0] } else { flips[rng.below(flips.len())] };
+                c[i] = if c[i].is_ascii_uppercase() { c[i].to_ascii_lowercase() } else { c[i].to_ascii_uppercase() };
+            }
+        }
+        8 => {
+            for x in c.iter_mut() {
+                *x = if rng.chance(1, 2) { x.to_ascii_lowercase() } else { x.to_ascii_uppercase() };
+            }
+        }
         0 => {
             // drop or add the capture mark
             if let Some(i) = c.iter().position(|&x| x == 'x') {
@@ -1852,7 +1945,7 @@ pub fn run(kv: &Args) {
                 repetition(&mut e, &mut r, len, undo);
             }
         }
-        "searches" | "perfts" | "games" | "engine" | "cli" | "schedules" | "revisits" => {
+        "searches" | "perfts" | "games" | "engine" | "cli" | "schedules" | "revisits" | "rightsrevisits" => {
             let mut positions: Vec<(String, Pos)> = corpus_subset(kv);
             let extra = kv.num("walkpos", 0) as usize;
             let maxp = kv.num("maxpieces", 32) as usize;
@@ -1872,6 +1965,7 @@ pub fn run(kv: &Args) {
                 "cli" => cli(&mut e, &mut r, kv, &positions),
                 "schedules" => schedules(&mut e, &mut r, kv, &positions),
                 "revisits" => revisits(&mut e, &mut r, kv, &positions),
+                "rightsrevisits" => rights_revisits(&mut e, &mut r, kv, &positions),
                 _ => book_and_engine(&mut e, &mut r, kv, &positions),
             }
         }
